@@ -75,6 +75,19 @@ CHECKS = {
         note='Trusted: brute-force per-scenario reference incl. grouping-node sums and the re-implemented parallel-connection limit.',
         technique='explicit-state exploration of scenarios + exhaustive enumeration of connection sets and decode tables',
         ref='4 (C11)'),
+    'C12': dict(
+        level='fault_enumeration',
+        text='E4: the real EncoderSelector runs under a scripted time limiter; for every setting of the scope the default script, every '
+             'single deviation (each limiter call answered with TimeoutError / MemoryError, each candidate rejected with '
+             'InvalidPatternEncoder / DetectedHighImpRatio), all pairs (thorough) and the all-timeout extremes are executed to '
+             'completion, each from a cold cache; 5 cache histories (cold, warm, matrix-only, selection-only, written by another '
+             'process with another hash seed) must give identical variables, decode tables and matrices; the returned manager must '
+             'satisfy the C10 laws; cache keys are compared over all pairs of ~2.9e5 enumerated settings.',
+        note='Assumes the limiter seam (name run_timeout in the selector module) captures every time dependence; numeric-stack versions '
+             'cannot be varied offline.',
+        technique='exhaustive enumeration of environment answers (limiter scripts, cache histories) up to a deviation bound',
+        ref='4 (C12), 3.5 E4'),
+
     'C13': dict(
         text='CC-1 family (4 constraint types x 2-3 choices x 2-4 options x 6 placements incl. shared option nodes, hierarchical and '
              'mutually exclusive): complete derivation state graph, both decode tables and the enumeration are compared with the '
@@ -93,6 +106,21 @@ CHECKS = {
         technique='explicit enumeration of inputs, preceding-decode histories and fallback fault scripts',
         ref='4 (C14)'),
 
+    'C16': dict(
+        text='E1 on the DV-2 family (1-2 design-variable nodes, discrete 1..3 options / two continuous ranges, permanent and conditional '
+             'anchors, with and without LINKED) x both encoders x every selection vector x an 8-value alphabet per design-variable '
+             'variable (far below .. far above, non-integer), with and without materialising; plus the direct graph setter.',
+        note='Trusted: clamp semantics as documented (int() then option range / bounds).',
+        technique='explicit enumeration of specs x value alphabet on the real decoder and setter',
+        ref='4 (C16)'),
+    'C17': dict(
+        text='E1 on the MET-1 family: every direction x reference x declared type x anchor combination for one metric node and pairs, '
+             'every architecture, four evaluator scripts (complete / one missing / NaN / empty) through a DSGEvaluator subclass; '
+             'classification decision table, value order, NaN and reference rules.',
+        note='Trusted: the decision table transcribed from the documentation.',
+        technique='explicit enumeration of metric configurations x architectures x evaluator scripts',
+        ref='4 (C17)'),
+
     'C09': dict(
         text='Bounded-exhaustive exploration of connector settings (all type combinations up to 2x2, every existence '
              'pattern, every single exclusion; larger shapes in thorough) on the real matrix generator; oracle is brute-force '
@@ -103,7 +131,7 @@ CHECKS = {
         ref='4 (C09)'),
 }
 
-READY = {'C01', 'C02', 'C03', 'C04', 'C06', 'C07', 'C09', 'C10', 'C11', 'C13', 'C14'}
+READY = {'C01', 'C02', 'C03', 'C04', 'C06', 'C07', 'C09', 'C10', 'C11', 'C12', 'C13', 'C14', 'C16', 'C17'}
 
 NOT_YET = {
 }
